@@ -46,10 +46,18 @@ def status():
     return "\n".join(rows)
 
 
+def asbuilt():
+    m = json.load(open(os.path.join(V, "MANIFEST.json")))
+    out = []
+    for c in m["checks"]:
+        out.append(f"**{c['property_id']}** ({c.get('technique', '')})  \n{c['level_claimed']['text']}  \n*Assumed / trusted:* {c['level_note']}\n")
+    return "\n".join(out)
+
+
 def main():
     p = os.path.join(V, "DESIGN.md")
     s = open(p).read()
-    for name, fn in (("findings", findings), ("seeded", seeded), ("status", status)):
+    for name, fn in (("findings", findings), ("seeded", seeded), ("status", status), ("asbuilt", asbuilt)):
         b, e = f"<!-- BEGIN {name} -->", f"<!-- END {name} -->"
         if b in s and e in s:
             s = s[:s.index(b) + len(b)] + "\n" + fn() + "\n" + s[s.index(e):]
